@@ -95,6 +95,25 @@ func (p *MicrosoftEntraIDProvider) ValidateSession(ctx context.Context, session 
 	return p.OIDCProvider.ValidateSession(ctx, session)
 }
 
+// CreateSessionFromToken converts a bearer token into a session; the tenant
+// rules that ValidateSession applies to sessions apply to bearer tokens as well
+func (p *MicrosoftEntraIDProvider) CreateSessionFromToken(ctx context.Context, token string) (*sessions.SessionState, error) {
+	ss, err := p.OIDCProvider.CreateSessionFromToken(ctx, token)
+	if err != nil {
+		return nil, err
+	}
+
+	tenant, err := p.getTenantFromToken(ss)
+	if err != nil {
+		return nil, fmt.Errorf("unable to retrieve entra tenant from token: %v", err)
+	}
+	if len(p.multiTenantAllowedTenants) > 0 && !p.checkTenantMatchesTenantList(tenant, p.multiTenantAllowedTenants) {
+		return nil, fmt.Errorf("entra: tenant %s is not specified in the list of allowed tenants", tenant)
+	}
+
+	return ss, nil
+}
+
 // Redeem exchanges the OAuth2 authentication token for an ID token, considering federated token authentication
 func (p *MicrosoftEntraIDProvider) Redeem(ctx context.Context, redirectURL, code, codeVerifier string) (*sessions.SessionState, error) {
 	if p.federatedTokenAuth {
